@@ -141,10 +141,13 @@ pub fn c01(ctx: &Ctx) -> (CheckMeta, Outcome) {
     let mut out = run_all(tasks, threads());
     out.merge(long_histories("C01", ctx, false));
     out.merge(crate::props::huge::c01_huge(ctx));
+    if crate::pool::is_primary() {
+        native_alias("C01", &mut out);
+    }
     let meta = CheckMeta {
         property: "C01".into(),
         level: "model_checking".into(),
-        rule: "explicit-state BFS over the real BufBitWriter (recording backend; state = Debug string (buffer, space_left) + model pending bits; rebuilt by replaying the shortest history) for E x W in {8,16,32,64,128}; alphabet write_bits(n 0..=64 x 4 value patterns x {clean, bit n set, all bits >= n set}), write_unary(0..=2W+1, 3W-1, 3W, 3W+1, 5W+3), flush; every transition: return value and words delivered during the step vs the bit-vector model; every node's history is replayed on vec/vecref/slice/adapter/adapter-over-a-3-byte-sink/adapter-over-a-lazy-sink (commits on flush only)/rec/vec-over-a-pre-filled-vector backends with flush, flush;flush, into_inner, drop, drop-while-unwinding and the whole byte image compared (traces_validated_against_impl counts these replays); plus a deep-and-narrow exploration (7-letter alphabet: 1 bit, W-1 ones, 64 bits, 7 dirty bits, unary 0, unary W, flush; depth 7, thorough 9); plus long streams: unary codes of 32 767..70 001 zeros (thorough up to 262 149), alone, between writes and across a flush, and 1 200 fixed-width writes, on every real backend; plus unary codes around and beyond 2^32 (x in 2^32-2, 2^32-1, 2^32, 2^32+1, 2^32+W-2, 2^32+W; thorough more and all word sizes) after 0, 1, W/2, W-1 pending bits into a sink that keeps only the non-zero words and the word count".into(),
+        rule: "explicit-state BFS over the real BufBitWriter (recording backend; state = Debug string (buffer, space_left) + model pending bits; rebuilt by replaying the shortest history) for E x W in {8,16,32,64,128}; alphabet write_bits(n 0..=64 x 4 value patterns x {clean, bit n set, all bits >= n set}), write_unary(0..=2W+1, 3W-1, 3W, 3W+1, 5W+3), flush; every transition: return value and words delivered during the step vs the bit-vector model; every node's history is replayed on vec/vecref/slice/adapter/adapter-over-a-3-byte-sink/adapter-over-a-lazy-sink (commits on flush only)/rec/vec-over-a-pre-filled-vector backends with flush, flush;flush, into_inner, drop, drop-while-unwinding and the whole byte image compared (traces_validated_against_impl counts these replays); plus a deep-and-narrow exploration (7-letter alphabet: 1 bit, W-1 ones, 64 bits, 7 dirty bits, unary 0, unary W, flush; depth 7, thorough 9); plus long streams: unary codes of 32 767..70 001 zeros (thorough up to 262 149), alone, between writes and across a flush, and 1 200 fixed-width writes, on every real backend; plus unary codes around and beyond 2^32 (x in 2^32-2, 2^32-1, 2^32, 2^32+1, 2^32+W-2, 2^32+W; thorough more and all word sizes) after 0, 1, W/2, W-1 pending bits into a sink that keeps only the non-zero words and the word count; the NativeEndian/NE aliases must denote the host's endianness (a writer and a reader instantiated through them vs the model of that endianness)".into(),
         assumptions: vec!["reference model = canonical layout (harness/src/model.rs)".into(), "by parametricity in the WordWrite backend the writer's future depends on (buffer, space_left) only".into()],
     };
     (meta, out)
@@ -221,7 +224,7 @@ pub fn c12(ctx: &Ctx) -> (CheckMeta, Outcome) {
     let meta = CheckMeta {
         property: "C12".into(),
         level: "model_checking".into(),
-        rule: "write side: BFS over the real BufBitWriter for E x W in {8..128}: level 0 reaches every buffer fill level (every starting bit offset), then std::io::Write::write of every slice length 0..=40 (two byte patterns) and 41,47,48,49,63,64,65,100, then further byte writes / boundary bit writes / flush / io::Write::flush; returned count must equal the slice length, delivered words and final images on all real backends must equal the model (byte = 8 stream bits in stream order); read side: BFS to the fixpoint of every reader kind over zero-extended/strict/Cursor backends with io::Read of every length 0..=40 at every reachable state; plus single byte writes of 4 097, 65 535, 65 536, 65 537 and 100 003 bytes (thorough up to 2^20+1) at bit offsets 0 and 3 on every real backend; plus the address-alignment sweep: every slice length 0..=40 x every start address modulo 8 of the caller's slice x starting bit offsets (all 0..=2W+1 for W <= 16 and in the thorough tier, boundary offsets otherwise) on the writer of every word size, and on every reader kind (every offset 0..=2W+1, every length); in the BFS sections the slice address is (3 len + 1) mod 8; plus io::Write::write_vectored driven to completion for every partition of the input into at most 3 slices with lengths from {0,1,2,3,5,7,8,9,12,20} at 6 bit offsets on every word size: the returned count must not exceed the input and the stream must hold exactly the bytes reported as written, in order".into(),
+        rule: "write side: BFS over the real BufBitWriter for E x W in {8..128}: level 0 reaches every buffer fill level (every starting bit offset), then std::io::Write::write of every slice length 0..=40 (two byte patterns) and 41,47,48,49,63,64,65,100, then further byte writes / boundary bit writes / flush / io::Write::flush; returned count must equal the slice length, delivered words and final images on all real backends must equal the model (byte = 8 stream bits in stream order); read side: BFS to the fixpoint of every reader kind over zero-extended/strict/Cursor backends with io::Read::read of every length 0..=40, read_exact of 9 lengths and read_vectored of 8 partitions at every reachable state; plus single byte writes of 4 097, 65 535, 65 536, 65 537 and 100 003 bytes (thorough up to 2^20+1) at bit offsets 0 and 3 on every real backend; plus the address-alignment sweep: every slice length 0..=40 x every start address modulo 8 of the caller's slice x starting bit offsets (all 0..=2W+1 for W <= 16 and in the thorough tier, boundary offsets otherwise) on the writer of every word size, and on every reader kind (every offset 0..=2W+1, every length); in the BFS sections the slice address is (3 len + 1) mod 8; plus io::Write::write_vectored driven to completion for every partition of the input into at most 3 slices with lengths from {0,1,2,3,5,7,8,9,12,20} at 6 bit offsets on every word size: the returned count must not exceed the input and the stream must hold exactly the bytes reported as written, in order".into(),
         assumptions: vec!["reference model = canonical layout".into()],
     };
     (meta, out)
@@ -358,8 +361,8 @@ pub fn c14_write(ctx: &Ctx) -> Outcome {
     let mut tasks: Vec<Task> = vec![];
     for e in End::BOTH {
         for wbits in WBITS {
-            for wrapper in ["count", "dbg"] {
-                if !ctx.thorough && wrapper == "dbg" && wbits != 64 {
+            for wrapper in ["count", "dbg", "countp"] {
+                if !ctx.thorough && (wrapper == "dbg" || wrapper == "countp") && wbits != 64 {
                     continue;
                 }
                 let seed = ctx.seed;
@@ -394,7 +397,7 @@ pub fn c14(ctx: &Ctx) -> (CheckMeta, Outcome) {
     let meta = CheckMeta {
         property: "C14".into(),
         level: "model_checking".into(),
-        rule: "the reader BFS (to the fixpoint) and the writer BFS (depth 3) are re-run with the object wrapped in CountBitReader/CountBitWriter and DbgBitReader/DbgBitWriter; alphabet = every trait method reachable through the wrapper: read_bits/peek/skip/unary, the parameterless gamma/delta/zeta methods, every table-parameterised variant (which reach the stream through the wrapper's peek_bits/skip_bits_after_peek), omega, pi, rice, golomb, exp-golomb, minimal binary, vbyte, copy_to/copy_from, flush; oracle: values, delivered words and positions identical to the unwrapped model; bits_read = bits consumed since the wrapper was created (= inner bit_pos when created at 0; the wrapper is also created on a reader that has already consumed 13 bits, and seeks through the wrapper are explored to depth 3 with the positions checked) and bits_written = bits written by operations, after EVERY transition including flushes; plus a grid through the Count wrappers: every code x parameter of the C03 grid (zeta/pi/rice/exp-golomb 0..=63, Golomb and minimal-binary moduli up to 2^64-1, vbyte) x its boundary values (every 2^i-2..2^i+2, length steps, maxima), written through CountBitWriter and DbgBitWriter after 5 pending bits (returned length, counter, bytes delivered) and read through CountBitReader (every table variant the reader admits) at bits 0 and 5: value, position and counter; unwrapping (into_inner) after every prefix length 0..=W+1 and continuing on the inner reader/writer, for both values of the wrappers' PRINT parameter".into(),
+        rule: "the reader BFS (to the fixpoint) and the writer BFS (depth 3) are re-run with the object wrapped in CountBitReader/CountBitWriter (PRINT off and on) and DbgBitReader/DbgBitWriter; alphabet = every trait method reachable through the wrapper: read_bits/peek/skip/unary, the parameterless gamma/delta/zeta methods, every table-parameterised variant (which reach the stream through the wrapper's peek_bits/skip_bits_after_peek), omega, pi, rice, golomb, exp-golomb, minimal binary, vbyte, copy_to/copy_from, flush; oracle: values, delivered words and positions identical to the unwrapped model; bits_read = bits consumed since the wrapper was created (= inner bit_pos when created at 0; the wrapper is also created on a reader that has already consumed 13 bits, and seeks through the wrapper are explored to depth 3 with the positions checked) and bits_written = bits written by operations, after EVERY transition including flushes; plus a grid through the Count wrappers: every code x parameter of the C03 grid (zeta/pi/rice/exp-golomb 0..=63, Golomb and minimal-binary moduli up to 2^64-1, vbyte) x its boundary values (every 2^i-2..2^i+2, length steps, maxima), written through CountBitWriter and DbgBitWriter after 5 pending bits (returned length, counter, bytes delivered) and read through CountBitReader (every table variant the reader admits) at bits 0 and 5: value, position and counter; unwrapping (into_inner) after every prefix length 0..=W+1 and continuing on the inner reader/writer, for both values of the wrappers' PRINT parameter".into(),
         assumptions: vec!["flush padding is not counted as written bits (flush reports pending bits, which were counted when written)".into()],
     };
     (meta, out)
@@ -594,7 +597,7 @@ pub fn wrapper_grid(ctx: &Ctx, prop: &'static str) -> Outcome {
                         // write side: through both wrappers; returned length, counter, and the bytes that
                         // reach the backend (the code writers are blanket implementations over BitWrite, and
                         // the wrappers are BitWrite implementors of their own)
-                        for wrapper in ["count", "dbg"] {
+                        for wrapper in ["count", "dbg", "countp"] {
                             let mut w = make_rec_writer(e, 64, wrapper);
                             let ops = [WOp::WriteBits { v: 0b10110, n: 5 }, WOp::Code { code, v }, WOp::WriteBits { v: 0b1011001, n: 7 }, WOp::Flush];
                             let o1 = w.apply(&ops[0]);
@@ -951,4 +954,48 @@ pub fn c12_vectored(_ctx: &Ctx) -> Outcome {
         }
     }
     run_all(tasks, threads())
+}
+
+
+/// The `NativeEndian` / `NE` aliases: a writer and a reader instantiated through them must behave as the
+/// endianness of the host (documented meaning of the alias).
+pub fn native_alias(prop: &str, out: &mut Outcome) {
+    use crate::model::Bits;
+    use crate::report::Violation;
+    use dsi_bitstream::prelude::*;
+    out.cov.configs.insert("native-endian-alias".into());
+    let host = if cfg!(target_endian = "little") { End::LE } else { End::BE };
+    let mut report = |out: &mut Outcome, sym: &str, d: String| {
+        out.violations.push(Violation { property: prop.into(), system: "native-alias".into(), config: host.name().into(), op_class: "alias".into(), symptom: sym.into(), detail: d, replay: serde_json::json!({"kind": "none"}) });
+    };
+    if NE::IS_LITTLE != cfg!(target_endian = "little") || NativeEndian::IS_BIG != cfg!(target_endian = "big") {
+        report(out, "value", format!("NE::IS_LITTLE = {} on a {}-endian host", NE::IS_LITTLE, if cfg!(target_endian = "little") { "little" } else { "big" }));
+    }
+    let ops = [WOp::WriteBits { v: 0b1011, n: 4 }, WOp::Unary(5), WOp::WriteBits { v: 0xABCD, n: 16 }, WOp::WriteBits { v: 0x1234_5678_9ABC_DEF0, n: 64 }, WOp::Flush];
+    let rec = Rec::<u32>::new();
+    let log = rec.log.clone();
+    {
+        let mut w = BufBitWriter::<NE, _>::new(rec);
+        let _ = w.write_bits(0b1011, 4);
+        let _ = w.write_unary(5);
+        let _ = w.write_bits(0xABCD, 16);
+        let _ = w.write_bits(0x1234_5678_9ABC_DEF0, 64);
+        let _ = BitWrite::<NE>::flush(&mut w);
+    }
+    let (model, _, _) = model_history(&ops, host, 32);
+    let want = model.to_bytes(host, 32);
+    out.cov.evaluations += 2;
+    out.cov.transitions += 10;
+    if *log.borrow() != want {
+        report(out, "bytes", format!("a writer instantiated through NE wrote {} but the {} layout of the same bits is {}", crate::util::hex(&log.borrow()), host.name(), crate::util::hex(&want)));
+    }
+    let words = crate::rd::words_from_bytes::<u32>(&want);
+    let mut r = BufBitReader::<NE, _>::new(MemWordReader::new(words));
+    let a = r.read_bits(4).unwrap_or(u64::MAX);
+    let u = r.read_unary().unwrap_or(u64::MAX);
+    let b = r.read_bits(16).unwrap_or(u64::MAX);
+    let bits = Bits::from_bytes(&want, host);
+    if (a, u, b) != (0b1011, 5, 0xABCD) || bits.len() < 90 {
+        report(out, "value", format!("a reader instantiated through NE read ({:#x}, {}, {:#x}) from the {} image of (0xb, unary 5, 0xabcd)", a, u, b, host.name()));
+    }
 }
